@@ -135,6 +135,13 @@ def binsCover (bins : List Rat) (w : Rat) (specs : List Spectrum) : Bool :=
   | some b0, some bl, some lo, some hi => decide (b0 ≤ lo) && decide (hi < bl + w)
   | _, _, _, _ => false
 
+/-- pixels that two or more dict values are written to (positions 0 and X, …): which value stays depends
+on the order of the loop, which the property does not fix; the harness compares only their NaN-ness -/
+def aliased (size : Option (Int × Int)) (d : List Spectrum) : Option (List (List (Option Bool))) :=
+  ((imageSize size d).bind shapeOf).map (fun shape =>
+    tabulate shape (fun r c =>
+      some (decide (2 ≤ (d.filter (fun s => pyIndex shape.1 (s.y - 1) == some r && pyIndex shape.2 (s.x - 1) == some c)).length))))
+
 def jSpecRef (s : Spectrum) : Json :=
   jObj [("x", jInt s.x), ("y", jInt s.y), ("mz", jVec s.mz), ("it", jVec s.it)]
 
@@ -156,6 +163,7 @@ def handle (op : String) (req : Json) : R Json := do
                 ("tic_spec", jOpt (jTable jRat) (specTable f (fun s => match s.tic with | some t => t | none => s.it.sum))),
                 ("range_model", jOpt (fun (p : Option Rat × Option Rat) => jList (jOpt jRat) [p.1, p.2]) mr),
                 ("range_spec", jList (jOpt jRat) [minR (allMz f.specs), maxR (allMz f.specs)]),
+                ("aliased", jOpt (jTable jBool) (aliased f.size d)),
                 ("edges", jList jRat (flatten wins)),
                 ("hyp", jBool (hyp f))])
   | "c05.bins" =>
